@@ -450,10 +450,12 @@ func (s *S) Check(c *scen.Ctx, res *simrt.Result) {
 	for i, st := range s.cliStreams {
 		s.compare(c, "client", st, s.cliGot[i], true)
 		addr := "10.0.0.8:" + strconv.Itoa(3000+i)
+		first := true
 		for _, p := range pairs {
-			if p.Addr != addr {
-				continue
+			if p.Addr != addr || !first {
+				continue // later connections to this address were never accepted by the scripted peer
 			}
+			first = false
 			if st.illegal != nil && st.sentAll && p.Client.ClosedAt < 0 {
 				c.Fail("C07", "not-closed-after-illegal-length", "client-receive-loop", "client side: connection %d received the illegal length prefix %x at %v and is still open 3s later", i, st.illegal[:4], st.illegalSentAt)
 			}
